@@ -96,3 +96,5 @@ Definition bool_of_word (z : Z) : option bool :=
 Definition word_of_bool (b : bool) : Z := if b then 1 else 0.
 
 Definition all_i64 (l : list Z) : Prop := Forall i64 l.
+
+Definition zlen {A} (l : list A) : Z := Z.of_nat (length l).
